@@ -839,7 +839,23 @@ func gtHistory(e *Env, n int) {
 				h.scVote()
 			}
 		}
+		jailedNow := false
+		if scen >= 2 && pt == 1 && e.R.N(2) == 0 {
+			// a validator is jailed in the SAME block in which the tally runs (evidence / downtime handled in begin-block, the gov
+			// end-blocker runs before staking's): it has left the power index, its tokens are still in the bonded pool
+			j := e.R.N(nv)
+			if v, err := c.App.StakingKeeper.GetValidator(c.Ctx(), c.Vals[j].Oper); err == nil && v.IsBonded() && !v.Jailed && h.bondedCount() >= 2 {
+				err, p := c.Call(func(ctx sdk.Context) error { return c.App.StakingKeeper.Jail(ctx, c.Vals[j].Cons) })
+				e.Note("jail v%d without a block: %s %v", j, class(err, p), err)
+				e.Stat("op.jail_same_block." + class(err, p))
+				jailedNow = err == nil && p == nil
+			}
+		}
 		h.tallyPoint(fmt.Sprintf("scen=%d point=%d", scen, pt))
+		if jailedNow && !h.block(1e9) {
+			e.Oracle("no_halt", false, "block after a same-block jailing")
+			return
+		}
 		// graph changes during the voting period
 		if scen >= 3 && e.R.N(2) == 0 {
 			i, j := e.R.N(len(c.Accs)), e.R.N(nv)
